@@ -132,6 +132,17 @@ func init() {
 			in.CallSync(a[0], nil) // no scheduling point inside
 			return Value{}, true
 		},
+		"CidKey": func(in *Interp, fr *Frame, a []Value) (Value, bool) {
+			at, ok := cidAtom(a[0])
+			if !ok {
+				return mkStr("?"), true
+			}
+			return mkStr(at.Key), true
+		},
+		"Gate": func(in *Interp, fr *Frame, a []Value) (Value, bool) {
+			in.cur.gateKey = concStrArg(a[0])
+			return Value{}, true
+		},
 		"Yield": func(in *Interp, fr *Frame, a []Value) (Value, bool) {
 			in.yieldNow = true
 			return Value{}, true
